@@ -37,8 +37,18 @@ func c11reach(prog []GenPkg, req map[string]bool) map[string]bool {
 }
 
 // v1 history: AddDir the first group, FindTypes, AddDirectoryTo the rest (or AddDir everything, then FindTypes)
+// c11relative: every request after the first group is spelled as a RELATIVE directory ("./ex.test/c3/p1";
+// the harness's working directory is GOPATH/src), which go/build canonicalises to the same package
+var c11relative = false
+
 func c11history(groups [][]string, early bool) (string, []string, []string, error) {
 	var problems, soFar []string
+	spell := func(gi int, d string) string {
+		if c11relative && gi > 0 {
+			return "./" + d
+		}
+		return d
+	}
 	b := parser.New()
 	var u types.Universe
 	var err error
@@ -47,7 +57,7 @@ func c11history(groups [][]string, early bool) (string, []string, []string, erro
 	for gi, grp := range groups {
 		if gi == 0 || !early {
 			for _, d := range grp {
-				if err = b.AddDir(d); err != nil {
+				if err = b.AddDir(spell(gi, d)); err != nil {
 					return "", nil, nil, err
 				}
 			}
@@ -74,7 +84,7 @@ func c11history(groups [][]string, early bool) (string, []string, []string, erro
 				}
 			}
 			for _, d := range grp {
-				if _, err = b.AddDirectoryTo(d, &u); err != nil {
+				if _, err = b.AddDirectoryTo(spell(gi, d), &u); err != nil {
 					return "", nil, nil, err
 				}
 			}
@@ -222,6 +232,38 @@ func c11(g *Gen) {
 			} else if dump != first {
 				problems = append(problems, fmt.Sprintf("history %v (early universe %v) gives a different universe", groups, early))
 			}
+		}
+		if len(reqL) > 1 && first != "" {
+			// two more histories, by construction: the requested packages one call each, importers BEFORE what
+			// they import (the generator lets a package import earlier ones only), every request after the
+			// first spelled as a relative directory -- once loading everything before FindTypes, once
+			// adding to the universe of the first request
+			var rev [][]string
+			for k := len(prog) - 1; k >= 0; k-- {
+				if req[prog[k].Path] {
+					rev = append(rev, []string{prog[k].Path})
+				}
+			}
+			c11relative = true
+			for _, early := range []bool{false, true} {
+				dump, inputs, probs, err := c11history(rev, early)
+				if err != nil {
+					problems = append(problems, fmt.Sprintf("history %v with relative directories failed: %v", rev, err))
+					continue
+				}
+				problems = append(problems, probs...)
+				if !reflect.DeepEqual(inputs, reqL) {
+					problems = append(problems, fmt.Sprintf("FindPackages %v after requests by relative directory, requested %v", inputs, reqL))
+				}
+				if dump != first {
+					problems = append(problems, fmt.Sprintf("history %v with relative directories (early universe %v) gives a different universe", rev, early))
+				}
+				if c11lastDigest != firstDigest {
+					problems = append(problems, fmt.Sprintf("history %v with relative directories (early universe %v) delivers other comments", rev, early))
+				}
+			}
+			c11relative = false
+			cls = append(cls, "importer-first-then-requests-by-relative-directory")
 		}
 		g.Emit("C11.histories!", list(in, atom(strings.Join(problems, "; "))), boolS(len(problems) == 0), append(cls, "histories")...)
 		if i%4 == 0 {
